@@ -164,7 +164,7 @@ impl Prop for C12 {
     }
     fn rule(&self) -> &'static str {
         "one kind per run on a repository holding 2-4 snapshots of an evolving source (edit scripts incl. type changes by re-generation, tree-colliding content, shared blobs). \
-         copy: into a destination with another key, version/compression, pack sizes, same or different chunker, empty or already holding some of the snapshots, copying a seeded subset then the rest: every copied snapshot reads back in the destination equal to its source model, destination check(read_data) clean. \
+         copy: into a destination with another key, version/compression, pack sizes, same or different chunker, empty or already holding some of the snapshots, copying a seeded subset then the rest, in a third of the runs followed by the loss of a destination pack, repair_index there, forgetting the copies there and copying all snapshots again (healing): every copied snapshot reads back in the destination equal to its source model, destination check(read_data) clean. \
          merge: 2-4 snapshots under last_modified_node or oldest-wins; the merged snapshot reads back equal to a reference merge on the models (per name the winner by the ordering; if the winner is a directory all directory candidates are merged recursively); runs with ambiguous ties are skipped. \
          rewrite: exclude sets from a plain grammar (!*.ext, !basename, !/anchored/path of an entry; in half of the runs the source holds two directories with identical subtrees - one tree blob under two paths - and an exclude anchored inside one of them); result equals the model minus matches, everything else bit-identical incl. metadata; with forget the original is gone, without both exist; an exclude set that matches nothing writes nothing. \
          repair: on an undamaged repository repair_snapshots writes nothing; after losing one data or tree pack (then repair_index, as documented) every file the repaired snapshot keeps under its own name has exactly its original content, and the repaired snapshot reads completely. \
@@ -307,6 +307,38 @@ impl Prop for C12 {
                     });
                     if !r.is_ok() {
                         rep.violation(format!("C12/copy-{}", r.class()), r.detail());
+                    }
+                }
+                // healing by copying again: the destination loses a pack (its index is repaired, so the blobs are
+                // known to be gone), then all snapshots are copied once more - root trees that are still there
+                // must not make copy skip what lies below them
+                if rng.chance(1, 3) && rep.violations.is_empty() {
+                    let packs = dstore.list_ids(FileType::Pack);
+                    if !packs.is_empty() {
+                        let victim = packs[rng.usize(packs.len())];
+                        let _ = dstore.remove_raw(FileType::Pack, &victim);
+                        rep.fire("destination_pack_lost_before_copying_again", 1);
+                        let (ds, dk) = (dstore.clone(), dkey.clone());
+                        let r = sim.run(&Mode::Free, move || repo_on(ds.handle(2), None, None)?.open(&dk.creds())?.repair_index(&rustic_core::RepairIndexOptions::default(), false));
+                        if !r.is_ok() {
+                            rep.violation(format!("C12/copy-heal-repair-index-{}", r.class()), r.detail());
+                        }
+                        // the damaged copies are forgotten in the destination (no prune), then copied again
+                        let all2: Vec<SnapshotFile> = snaps.iter().map(|x| x.0.clone()).collect();
+                        let (st, ky, ds, dk) = (store.clone(), key.clone(), dstore.clone(), dkey.clone());
+                        let r = sim.run(&Mode::Free, move || {
+                            let dst = repo_on(ds.handle(2), None, None)?.open(&dk.creds())?;
+                            let ids: Vec<_> = dst.get_all_snapshots()?.iter().map(|s| s.id).collect();
+                            dst.delete_snapshots(&ids)?;
+                            let src = repo_open(&st, 1, &ky)?.to_indexed()?;
+                            let dst = dst.to_indexed_ids()?;
+                            let rel = dst.relevant_copy_snapshots(|_| true, &all2)?;
+                            let todo: Vec<SnapshotFile> = rel.into_iter().filter(|c| c.relevant).map(|c| c.sn).collect();
+                            src.copy(&dst, todo.iter())
+                        });
+                        if !r.is_ok() {
+                            rep.violation(format!("C12/copy-again-{}", r.class()), r.detail());
+                        }
                     }
                 }
                 let packs_written = dstore.log_from(log0).iter().filter(|o| o.tpe == FileType::Pack && o.kind == OpKind::Write).count();
